@@ -26,7 +26,7 @@ SHARDS = 16
 GRACE, SHUT = 0.4, 0.4
 HORIZON = 5.0
 
-KINDS = ["idle_keepalive", "partial_head", "inflight_short", "pipelined_behind_inflight", "h2_two_inflight", "inflight_long", "stuck_forever", "unread_response", "unread_response_halfclosed", "h2_open_stream",
+KINDS = ["idle_keepalive", "partial_head", "inflight_short", "pipelined_behind_inflight", "pipelined_second_inflight", "h2_two_inflight", "inflight_long", "stuck_forever", "unread_response", "unread_response_halfclosed", "h2_open_stream",
          "h2_idle", "websocket_open"]
 
 
@@ -259,7 +259,7 @@ def run_one(case, tally):
     }
     if case.get("ls"):
         apps["lifespan"] = apps["lifespan"] + ([["sleep", 0.15]] if case["ls"] == "lingers" else [["yield", 2]])
-    cfg = {"graceful_timeout": GRACE if kind not in ("inflight_short", "pipelined_behind_inflight", "h2_two_inflight", "burst_across_trigger") else 3.0, "shutdown_timeout": SHUT, "keep_alive_timeout": 30.0}
+    cfg = {"graceful_timeout": GRACE if kind not in ("inflight_short", "pipelined_behind_inflight", "pipelined_second_inflight", "h2_two_inflight", "burst_across_trigger") else 3.0, "shutdown_timeout": SHUT, "keep_alive_timeout": 30.0}
     if case["trigger"] == "max_requests":
         cfg["max_requests"] = 2
     h = ServeHarness(be, cfg, apps)
@@ -287,6 +287,9 @@ def run_one(case, tally):
                 s.sendall(b"GET /short HTTP/1.1\r\nHost: h\r\n\r\n")
             elif kind == "pipelined_behind_inflight":
                 s.sendall(b"GET /short HTTP/1.1\r\nHost: h\r\n\r\nGET /after-trigger HTTP/1.1\r\nHost: h\r\n\r\n")
+            elif kind == "pipelined_second_inflight":
+                # the request in progress at the trigger is the second of a pipeline: it was already buffered when the first one completed
+                s.sendall(b"GET /t%d HTTP/1.1\r\nHost: h\r\n\r\nGET /short HTTP/1.1\r\nHost: h\r\n\r\n" % i)
             elif kind == "inflight_long":
                 s.sendall(b"GET /long HTTP/1.1\r\nHost: h\r\n\r\n")
             elif kind == "stuck_forever":
@@ -312,7 +315,7 @@ def run_one(case, tally):
                 s.sendall(ws.handshake(path=b"/ws%d" % i))
                 recv_until(s, b"\r\n\r\n", timeout=1.0)
         # let the server get every request going
-        want_apps = {"inflight_short": "/short", "pipelined_behind_inflight": "/short", "h2_two_inflight": "/short2", "inflight_long": "/long", "stuck_forever": "/stuck", "unread_response": "/big", "unread_response_halfclosed": "/big", "h2_open_stream": "/stuck"}.get(kind)
+        want_apps = {"inflight_short": "/short", "pipelined_behind_inflight": "/short", "pipelined_second_inflight": "/short", "h2_two_inflight": "/short2", "inflight_long": "/long", "stuck_forever": "/stuck", "unread_response": "/big", "unread_response_halfclosed": "/big", "h2_open_stream": "/stuck"}.get(kind)
         if want_apps:
             end = time.monotonic() + 2.0
             while time.monotonic() < end and sum(1 for e in tr.events if e[2] == "app" and e[3] == "start" and e[4]["scope"].get("path") == want_apps) < len(socks):
@@ -396,7 +399,7 @@ def run_one(case, tally):
                 # "the peer is told to go away": a connection that was busy at the trigger and is closed once its streams have finished
                 # must have carried a GOAWAY before its end (a bare EOF tells an HTTP/2 client nothing about which streams were processed)
                 seen.setdefault("h2_goaway_before_eof", []).append((any(e["t"] == "goaway" for e in evs), eof))
-        if kind in ("inflight_short", "pipelined_behind_inflight"):
+        if kind in ("inflight_short", "pipelined_behind_inflight", "pipelined_second_inflight"):
             time.sleep(0.2)
             h.apps.trigger("finish")
             for s in socks:
@@ -513,12 +516,12 @@ def run_one(case, tally):
         if not all(seen.get("idle_closed", [False])):
             findings.append({"clause": "idle-closed", "sig": "C15.idle-connection-kept-open/%s" % be, "backend": be,
                              "detail": "idle keep-alive connections after the trigger: closed=%r" % seen.get("idle_closed")})
-    if kind in ("inflight_short", "pipelined_behind_inflight", "h2_two_inflight"):
+    if kind in ("inflight_short", "pipelined_behind_inflight", "pipelined_second_inflight", "h2_two_inflight"):
         tally.clause("inflight-delivered")
         if not all(seen.get("short", [False])):
             findings.append({"clause": "inflight-delivered", "sig": "C15.inflight-truncated/%s" % be, "backend": be,
                              "detail": "request completing inside the grace period was not delivered in full: %r" % seen.get("short")})
-    if kind in ("inflight_short", "pipelined_behind_inflight", "h2_two_inflight"):
+    if kind in ("inflight_short", "pipelined_behind_inflight", "pipelined_second_inflight", "h2_two_inflight"):
         # "... lets requests in progress finish ..., then ... runs lifespan shutdown": these requests finish inside the grace period,
         # so the lifespan application must not hear of the shutdown before the last of them has returned
         ls = [e for e in ev if e[2] == "app" and e[3] == "recv" and e[4]["msg"].get("type") == "lifespan.shutdown"]
